@@ -1606,10 +1606,14 @@ pub(crate) fn sim_now(sh: &Arc<Shared>, me: TaskId) -> u64 {
 
 pub(crate) fn sim_rng_seed(sh: &Arc<Shared>, me: TaskId) -> u64 {
     let mut g = sh.lock();
-    let n = g.tasks[me].rng_calls;
+    // The i-th call of `rand::rng()` in the simulation gets the i-th stream. (It used to be
+    // keyed by the calling task's id: two runs of the same workload then drew different frames
+    // as soon as one of them had one auxiliary thread more — a false "mapping" alarm of C20 on
+    // a rewrite that splits the progress thread of `ber` in two.)
     g.tasks[me].rng_calls += 1;
+    let n = g.tasks.iter().map(|t| t.rng_calls).sum::<u64>() - 1;
     g.log(me, Ev::Rng);
-    keyed(g.cfg.entropy_seed, &[me as u64, n])
+    keyed(g.cfg.entropy_seed, &[n])
 }
 
 pub(crate) fn sim_num_cpus(sh: &Arc<Shared>, me: TaskId) -> usize {
